@@ -61,6 +61,11 @@ func (c *caseOrderChecker) checkTypeSwitch(s *ast.TypeSwitchStmt) {
 				c.warnUnknownType(cc, x)
 				return
 			}
+			if b, ok := typ.(*types.Basic); ok && b.Kind() == types.UntypedNil {
+				// `case nil` matches the nil interface value, which no
+				// interface case matches: it is reachable wherever it stands.
+				continue
+			}
 			for _, iface := range ifaces {
 				if types.Implements(typ, iface.typ) {
 					c.warnTypeSwitch(cc, x, iface.node)
